@@ -16,4 +16,12 @@ def fieldExtraKeySites : List (String × String × Bool) := [
   ("get_field_extras", "self.get_field_extra_key(k.lstrip('x-') if k in self.field_extra_keys_without_x_prefix else k)", true)
 ]
 
+/-- (guard, form, source) of every return path of every function bound to `get_field_extra_key` in `JsonSchemaParser`:
+guard = the `can_have_extra_keys` branch the binding stands in; form = `resolver` (the field-name resolver applied to the
+untouched key, first component), `identity` (the key itself) or `other` -/
+def fieldExtraKeySanitiser : List (String × String × String) := [
+  ("can_have_extra_keys", "resolver", "self.model_resolver.get_valid_field_name_and_alias(key)[0]"),
+  ("not can_have_extra_keys", "identity", "key")
+]
+
 end Dcg.Gen.CodeSites
